@@ -360,12 +360,52 @@ Lemma model_meets_spec phases :
   run_ok {| r_phases := phases; r_obs := Survived (run_phases st0 phases) |} = true.
 Proof. intro H. unfold run_ok. cbn [r_obs r_phases]. apply phases_ok_model; [exact rel0|exact H]. Qed.
 
-Lemma model_meets_spec_batch batch :
+Lemma model_meets_spec_batch batch storms :
   Forall (Forall (Forall api)) batch ->
   spec_ok {| c_runs := map (fun phases => {| r_phases := phases;
-                                             r_obs := Survived (run_phases st0 phases) |}) batch |} = true.
+                                             r_obs := Survived (run_phases st0 phases) |}) batch;
+             c_storms := map (fun kw => {| s_pipes := fst kw; s_workers := snd kw;
+                                           s_obs := StormSurvived false (reg st0) |}) storms |} = true.
 Proof.
-  intro H. unfold spec_ok. cbn [c_runs]. apply forallb_forall. intros r Hr.
-  apply in_map_iff in Hr. destruct Hr as [phases [<- Hin]].
-  apply model_meets_spec. rewrite Forall_forall in H. apply H. exact Hin.
+  intro H. unfold spec_ok. cbn [c_runs c_storms]. apply andb_true_intro. split.
+  - apply forallb_forall. intros r Hr.
+    apply in_map_iff in Hr. destruct Hr as [phases [<- Hin]].
+    apply model_meets_spec. rewrite Forall_forall in H. apply H. exact Hin.
+  - apply forallb_forall. intros r Hr. apply in_map_iff in Hr. destruct Hr as [kw [<- _]]. reflexivity.
+Qed.
+
+(* the rounds of a storm: on a name that is not registered, create/get/dump/delete
+   and create/get/close/fire both give the registry back as it was *)
+Lemma remove_absent n r : has n r = false -> remove n r = r.
+Proof.
+  induction r as [|[k v] r IH]; intro H; cbn [remove]; [reflexivity|].
+  cbn [has] in H. apply orb_false_iff in H. destruct H as [Hk Hr].
+  rewrite Hk. rewrite IH by exact Hr. reflexivity.
+Qed.
+
+Lemma remove_insert n t r : has n r = false -> remove n (insert n t r) = r.
+Proof.
+  induction r as [|[k v] r IH]; intro H; cbn [insert].
+  - cbn [remove]. rewrite N.eqb_refl. reflexivity.
+  - pose proof H as H'. cbn [has] in H'. apply orb_false_iff in H'. destruct H' as [Hk Hr].
+    destruct (N.ltb n k).
+    + cbn [remove]. rewrite N.eqb_refl, Hk. rewrite (remove_absent _ _ Hr). reflexivity.
+    + cbn [remove]. rewrite Hk. rewrite IH by exact Hr. reflexivity.
+Qed.
+
+Lemma storm_round_restores s n :
+  has n (reg s) = false -> n <> 0%N ->
+  reg (run s [Create n; Get n; Dump; Delete n]) = reg s /\
+  reg (run s [Create n; Get n; Close n; Fire n]) = reg s /\
+  results s [Create n; Get n; Dump] = [ROk; ROk; RNames (insert n 1 (reg s))].
+Proof.
+  intros H Hn.
+  assert (has n (insert n 1 (reg s)) = true) as Hin by (rewrite has_insert, N.eqb_refl; reflexivity).
+  assert (N.eqb n 0 = false) as Hn0 by (apply N.eqb_neq; exact Hn).
+  split; [|split].
+  - cbn [run step]. rewrite H. cbn [fst reg pend]. rewrite Hin. cbn [negb fst].
+    rewrite Hn0. cbn [fst reg]. apply remove_insert. exact H.
+  - cbn [run step]. rewrite H. cbn [fst reg pend]. rewrite Hin. cbn [negb fst].
+    rewrite Hn0. cbn [fst reg pend take]. rewrite N.eqb_refl. cbn [fst reg]. apply remove_insert. exact H.
+  - cbn [results step]. rewrite H. cbn [fst snd reg]. rewrite Hin. reflexivity.
 Qed.
